@@ -87,6 +87,12 @@ for rk, rx, inc in [("xplus_inc", b"X+", True), ("xplus_exc", b"X+", False), ("x
     add("s_regex_" + rk, sent("SRegex" + "".join(p.capitalize() for p in rk.split("_")),
                               [("d", Data(regex=rx, include=inc))]), 5, 6, "S", "data", "regex", "delim",
         *(["regex_lossy"] if (not inc and rk != "xy_exc") else []), *(["regex_nokeep"] if not inc else []))
+# regex delimiters with left-looking zero-width assertions (their meaning must not depend on bytes before the field)
+add("s_regex_caret", sent("SRegexCaret", [("d", Data(regex=b"^X|Y", include=False))]), 5, 6, "S", "data", "regex", "delim",
+    "regex_lossy", "regex_nokeep")
+add("s_regex_lookbehind", sent("SRegexLookbehind", [("d", Data(regex=b'(?<!Q)"', include=True))]), 5, 6, "S", "data", "regex", "delim")
+add("s_regex_lookbehind2", Decl("SRegexLookbehind2", [("d", Data(regex=b"(?<=a)b", include=False)), ("z", Int(1))]), 4, 5,
+    "S", "data", "regex", "delim", "regex_nokeep")
 add("s_regex_sbl2", sent("SRegexSbl2", [("d", Data(regex=b"X+", include=True))], search_buffer_length=2), 5, 6,
     "S", "data", "regex", "delim", "sbl", "regex_ext")
 add("s_eos", Decl("SEos", [("a", Int(1)), ("d", Data(regex=b"$"))]), 4, 6, "S", "data", "eos", "delim", "readtoend")
